@@ -1,10 +1,10 @@
 SPECIFICATION Spec
 CONSTANTS
   Accts = {1, 2}
-  MaxDepth = 3
-  MaxFrames = 3
-  MaxTx = 1
-  MaxMuts = 2
+  MaxDepth = 2
+  MaxFrames = 2
+  MaxTx = 2
+  MaxMuts = 1
   AsCoded = FALSE
 INVARIANTS TypeOK FailRestores StaticPure TxClean ReceiptOwn Conservation
 VIEW NoHist
